@@ -23,13 +23,14 @@ Proof. intros k tr s H. exact (at_most_once s (inv_reach k tr s H)). Qed.
 Print Assumptions c01_at_most_once.
 
 (* Never lost: once the producer has exchanged, an attached continuation is the producer's job, a
-   continuation whose attach failed is the consumer's job, and a sleeping waiter has been signalled. *)
+   continuation whose attach failed is the consumer's job, and a sleeping waiter (timed or not, even in the
+   middle of resetting after a timeout) has been signalled. *)
 Theorem c01_never_lost :
   forall k tr s, run (init k) tr = Some s -> ppc s = 2 ->
   match cpc s with
   | CAttached => tokens s = [P]
   | CInline | CInlineT => tokens s = [C]
-  | CWaiting => signalled s = true
+  | CWaiting | CTWaiting | CReset1 | CTWaitingU => signalled s = true
   | _ => True
   end.
 Proof. intros k tr s H. exact (not_lost s (inv_reach k tr s H)). Qed.
@@ -81,6 +82,19 @@ Proof. eexists. vm_compute. repeat split. Qed.
 Example c01_witness_silent :
   exists s, run (init KSilent) [ESet 7; ELd C WE; EXchg WE; ECas false; ELd C WR] = Some s /\
             terminal s = true /\ cbs s = [].
+Proof. eexists. vm_compute. repeat split. Qed.
+(* a timed wait that gives up leaves the future intact: the later Get&& still receives the value *)
+Example c01_witness_timeout_then_get :
+  exists s, run (init KGet) [ETWaitBegin; ELd C WE; ECas true; ELd C WC; ECas true; ETWaitRet false; ESet 7; EXchg WE;
+                             EWaitBegin; ELd C WR; ELd C WR; EGot] = Some s /\
+            terminal s = true /\ gots s = [Some 7] /\ readys s = [(false, false)].
+Proof. eexists. vm_compute. repeat split. Qed.
+(* the producer's exchange lands between the timed-out waiter's reset load and its CAS: the reset fails, the
+   waiter waits for the signal and reports success *)
+Example c01_witness_timeout_reset_race :
+  exists s, run (init KGet) [ETWaitBegin; ELd C WE; ECas true; ELd C WC; ESet 7; EXchg WC; ECas false; ETWaitRet true;
+                             EWaitBegin; ELd C WR; ELd C WR; EGot] = Some s /\
+            terminal s = true /\ gots s = [Some 7] /\ readys s = [(true, true)].
 Proof. eexists. vm_compute. repeat split. Qed.
 Example c01_witness_connect :
   exists s, run (init KConnect) [ESet 7; EXchg WE; ELd C WR; ELd C WR; ELd C WR; ECb C] = Some s /\
